@@ -29,12 +29,13 @@ func init() {
 				"all members or panics. R7: the constructor used for a recognised device is built from that profile's blocking mode " +
 				"and filtered-response TTL. R8: every rule-list engine (shared lists, blocked services, safe search) has a result cache of its own, so a cached verdict of one source is never returned for another.",
 			NotCovered: "what the urlfilter engine matches and the allow/block priority inside GetDNSBasicRule (library); equality of verdicts over all rule-list contents.",
-			Rules: map[string]string{"C02-R1": "request-filter order", "C02-R2": "FilterRequest precedence", "C02-R13": "blocking-mode fields (custom IPv4 / IPv6 answers) are converted name-to-name by the backend and file-cache codecs", "C02-R11": "mainmw.filterRequest / filterResponse: the filter is asked about this request and this upstream answer; a CNAME rewrite makes the rewritten question go upstream and restores ID, question and a leading CNAME on the way back instead of response filtering", "C02-R10": "in-place refreshable lists (safe search): engine swap and cache clear in one write-locked section, queries under the lock (shared with C12-R1/R2)", "C02-R3": "rule-list consultation order and rewrite priority",
+			Rules: map[string]string{"C02-R1": "request-filter order", "C02-R2": "FilterRequest precedence", "C02-R15": "the profile's rule-list IDs keep the configured order through the backend conversion (the first list with a matching rewrite wins, so reordering changes verdicts)", "C02-R13": "blocking-mode fields (custom IPv4 / IPv6 answers) are converted name-to-name by the backend and file-cache codecs", "C02-R11": "mainmw.filterRequest / filterResponse: the filter is asked about this request and this upstream answer; a CNAME rewrite makes the rewritten question go upstream and restores ID, question and a leading CNAME on the way back instead of response filtering", "C02-R10": "in-place refreshable lists (safe search): engine swap and cache clear in one write-locked section, queries under the lock (shared with C12-R1/R2)", "C02-R3": "rule-list consultation order and rewrite priority",
 				"C02-R4": "network rules before hosts rules", "C02-R5": "filter selection", "C02-R6": "response shaping and exhaustiveness", "C02-R7": "profile constructor provenance", "C02-R8": "one result cache per rule-list engine"},
 		}})
 }
 
 func runC02(c *an.Ctx) {
+	c02ListOrder(c)
 	// ---- R14: the hash-prefix verdict cache stores and hands out copies (a cached block page is not overwritten by pool reuse)
 	c.Floor("C02-R14", 4)
 	c07Caches(c, "C02-R14")
@@ -636,6 +637,66 @@ func c02Rewrites(c *an.Ctx) {
 			}
 			if o.Ret[0].Dyn != "*filter/internal.ResultModifiedResponse" || mem("Msg") != "nonnil:rewritten(p0,nonnil:rr)" || mem("List") != "p2" {
 				return "the rewritten response attributed to this list; got " + mem("Msg")
+			}
+			return ""
+		},
+	})
+}
+
+// c02ListOrder is the table of the backend conversion of a profile's rule-list
+// IDs: valid IDs are kept in the order sent, invalid ones skipped, nothing is
+// sorted or removed otherwise.
+func c02ListOrder(c *an.Ctx) {
+	c.Floor("C02-R15", 1)
+	decide(c, "C02-R15", "backendpb.(*RuleListsSettings).toInternal", an.DecideCfg{
+		Dom: an.Domain{"p0": {an.Nil(), an.NonNil("x")}, "len(x.Ids)": an.Ints(0, 2), "e0": an.Bools, "e1": an.Bools},
+		OnCall: func(it *an.Interp, name string, args []an.AV) (an.AV, bool) {
+			switch {
+			case strings.HasSuffix(name, "filter/internal.NewID"), strings.HasSuffix(name, "filter.NewID"):
+				i := "0"
+				if strings.Contains(args[0].String(), "[1]") {
+					i = "1"
+				}
+				if it.Feature("e" + i).IsTrue() {
+					return an.AV{Kind: an.KTuple, Tup: []an.AV{an.CStr(""), an.NonNil("idErr")}}, true
+				}
+				return an.AV{Kind: an.KTuple, Tup: []an.AV{an.Sym("id" + i), an.Nil()}}, true
+			case name == "fmt.Errorf":
+				return an.NonNil("wrapped"), true
+			case strings.HasSuffix(name, "errcoll.Collect"):
+				return an.Nil(), true
+			}
+			return an.AV{}, false
+		},
+		Expect: func(f an.Features, o an.AOutcome) string {
+			if len(o.Ret) != 1 {
+				return "a configuration"
+			}
+			for _, e := range o.Effects {
+				if e.Kind == "call" && (strings.HasPrefix(e.Name, "slices.") || strings.HasPrefix(e.Name, "sort.")) {
+					return "the IDs left in the order the backend sent them (rule lists are consulted in this order and the first matching rewrite wins); got a call of " + e.Name
+				}
+			}
+			k := strings.TrimPrefix(o.Ret[0].String(), "&")
+			if f.IsNil("p0") {
+				return ""
+			}
+			var want []string
+			for i := 0; i < int(f.I("len(x.Ids)")); i++ {
+				if !f.B(fmt.Sprintf("e%d", i)) {
+					want = append(want, fmt.Sprintf("id%d", i))
+				}
+			}
+			ids := o.Mem[k+".IDs"]
+			var got []string
+			for _, t := range ids.Tup {
+				got = append(got, t.String())
+			}
+			if strings.Join(got, ",") != strings.Join(want, ",") {
+				return "the valid IDs in order [" + strings.Join(want, ",") + "]; got [" + strings.Join(got, ",") + "] (" + ids.String() + ")"
+			}
+			if o.Mem[k+".Enabled"].String() != "x.Enabled" {
+				return "the enabled flag copied"
 			}
 			return ""
 		},
